@@ -272,6 +272,9 @@ func runC18(c *Ctx) {
 	// ---- ISO-LOCK / ISO-PUBLISH
 	c.lockRules(guarded)
 
+	// ---- ISO-READONLY: serialisers and query methods do not modify their receiver
+	c.readOnlyAPI()
+
 	// ---- ISO-CONC
 	n := 0
 	for _, fn := range c.modFuncs {
@@ -690,4 +693,63 @@ func reaches(b *ssa.BasicBlock, i int, target ssa.Instruction) bool {
 		stack = append(stack, x.Succs...)
 	}
 	return false
+}
+
+// readOnlyAPI: the serialisation and query entry points are documented to
+// leave the value they are called on unchanged; two goroutines (or two
+// successive calls) may use the same font or metrics value.  Frozen list, by
+// type and method name; a method that disappears is reported in evidence only.
+var readOnlyMethods = map[string][]string{
+	"type1.Font":    {"Write", "WritePDF", "NumGlyphs", "GlyphList", "BuiltinEncoding", "WidthsMapPDF", "FontBBox", "FontBBoxPDF", "GlyphBBoxPDF", "GlyphWidthPDF"},
+	"type1.Glyph":   {"BBox"},
+	"afm.Metrics":   {"Write", "NumGlyphs", "GlyphList", "FontBBoxPDF", "GlyphWidthPDF"},
+	"type1.FontInfo": {"PostScriptName"},
+}
+
+func (c *Ctx) readOnlyAPI() {
+	var keys []string
+	for k := range readOnlyMethods {
+		keys = append(keys, k)
+	}
+	sort.Strings(keys)
+	n := 0
+	var missing []string
+	for _, k := range keys {
+		parts := strings.SplitN(k, ".", 2)
+		for _, m := range readOnlyMethods[k] {
+			f := c.methodOpt(parts[0], parts[1], m)
+			if f == nil {
+				missing = append(missing, k+"."+m)
+				continue
+			}
+			n++
+			eff := c.effects().of(f)
+			var bad []string
+			if eff.Params[0] {
+				bad = append(bad, "writes memory reachable from its receiver")
+			}
+			for g := range eff.Globals {
+				bad = append(bad, "writes package-level "+g)
+			}
+			if len(eff.Heap) > 0 {
+				bad = append(bad, dedup(eff.Heap)...)
+			}
+			if eff.Captured {
+				bad = append(bad, "writes captured variables")
+			}
+			c.check(len(bad) == 0, "ISO-READONLY", c.fname(f), "does not modify the value it is called on", f.Pos(), "no store reachable from the receiver, no package-level write", c.fname(f)+" is a serialiser/query method but "+strings.Join(bad, "; ")+": the same font/metrics value then gives different results on the next call or races with concurrent readers")
+		}
+	}
+	for _, fn := range []struct{ pkg, name string }{{"names", "ToUnicode"}, {"names", "FromUnicode"}, {"names", "IsValid"}} {
+		f := c.fnOpt(fn.pkg, fn.name)
+		if f == nil {
+			missing = append(missing, fn.pkg+"."+fn.name)
+			continue
+		}
+		_ = f
+	}
+	if len(missing) > 0 {
+		c.rep.Extra["readonly_api_missing"] = missing
+	}
+	c.floor("ISO-READONLY", 12)
 }
